@@ -542,21 +542,29 @@ func (e *CoreExtension) functionRange(args ...interface{}) (interface{}, error) 
 		return nil, errors.New("step cannot be zero")
 	}
 
+	// Number of elements (the end is inclusive), computed without overflow: the
+	// loop variable of a counting loop wraps around when end is near the largest
+	// integer, and a range taken from context data can be arbitrarily long
+	const maxRangeLength = 1000000
+	count := 0
+	if (step > 0 && start <= end) || (step < 0 && start >= end) {
+		var span, stride uint64
+		if step > 0 {
+			span, stride = uint64(end)-uint64(start), uint64(step)
+		} else {
+			span, stride = uint64(start)-uint64(end), uint64(-step)
+		}
+		if span/stride >= maxRangeLength {
+			return nil, fmt.Errorf("range of more than %d elements", maxRangeLength)
+		}
+		count = int(span/stride) + 1
+	}
+
 	// Create the result as a slice of interface{} values explicitly
 	// Ensure it's always []interface{} for consistent handling in for loops
-	result := make([]interface{}, 0)
-
-	// For compatibility with existing tests, keep the end index inclusive
-	if step > 0 {
-		// For positive step, include the end value (end is inclusive)
-		for i := start; i <= end; i += step {
-			result = append(result, i)
-		}
-	} else {
-		// For negative step, include the end value (end is inclusive)
-		for i := start; i >= end; i += step {
-			result = append(result, i)
-		}
+	result := make([]interface{}, 0, count)
+	for k := 0; k < count; k++ {
+		result = append(result, start+k*step)
 	}
 
 	// Ensure we're returning a non-nil slice that can be used in loops
